@@ -27,8 +27,9 @@ structure UpCtx (c : Cfg) (s : S) : Prop where
   pd : s.procDone = false
   sr : s.setupRetry = false
   dir : s.direct = false
-  ur : s.upReset = true → s.phase = .UpRecvData ∨ s.phase = .UpRecvTrailer ∨ (s.phase = .UpFilter ∧ s.urr = true)
-  lc : liveCount s.streams = 0 ∨ (s.urr = true ∧ respHasMore s.resp = true)
+  ur : s.upReset = true → s.phase = .UpRecvData ∨ s.phase = .UpRecvTrailer ∨
+    ((s.phase = .UpFilter ∨ s.phase = .UpRecvHeader) ∧ s.urr = true ∧ s.rs.isSome = true)
+  lc : liveCount s.streams = 0 ∨ (s.urr = true ∧ respHasMore s.resp = true ∧ s.rs.isSome = true)
   tm : (s.perTry = false ∧ s.global = false) ∨ s.urr = true
 
 theorem upCtx {c : Cfg} {ar aq : Nat} {s : S} (h : Inv c ar aq s) (hrun : s.running = true) (hupp : upPhase s.phase = true) :
@@ -36,7 +37,8 @@ theorem upCtx {c : Cfg} {ar aq : Nat} {s : S} (h : Inv c ar aq s) (hrun : s.runn
   have hcl := inv_not_cleaned h hrun
   obtain ⟨hlc, _, hur, htm, _, _, _⟩ := h.k15 hcl hupp
   have hsr := (h.k7 hcl).1
-  have hdir : s.direct = false := not_direct_of_phase h.k7 hcl (by intro hh; rw [hh] at hupp; simp [upPhase] at hupp)
+  have hdir : s.direct = false := not_direct_of_phase h.k7 hcl
+    (by intro hh; rcases hh with hh | hh <;> (rw [hh] at hupp; simp [upPhase] at hupp))
   have hpd : s.procDone = false := by
     cases hh : s.procDone with
     | false => rfl
@@ -53,7 +55,7 @@ def UpAt (s' : S) (q : Phase) : Prop :=
 theorem inv_up_state (c : Cfg) (ar aq : Nat) (s' : S) (q : Phase) (b : Base c ar aq s') (hrun : s'.running = true)
     (hcl : s'.cleaned = false) (h3 : K3 s') (h6 : K6 s') (hpd : s'.procDone = false) (hsr : s'.setupRetry = false)
     (hdir : s'.direct = false) (h8 : s'.pass ≤ 1) (hur : s'.upReset = false)
-    (hlc : liveCount s'.streams = 0 ∨ (s'.urr = true ∧ respHasMore s'.resp = true))
+    (hlc : liveCount s'.streams = 0 ∨ (s'.urr = true ∧ respHasMore s'.resp = true ∧ s'.rs.isSome = true))
     (htm : (s'.perTry = false ∧ s'.global = false) ∨ s'.urr = true) (hat : UpAt s' q)
     (h24 : K24 c s') (h25 : K25 c s') (h28 : K28 s') (how : c.oneway = false) : Inv c ar aq s' := by
   obtain ⟨hph, hupq, hresp, hrst, hd, ht⟩ := hat
@@ -97,7 +99,7 @@ theorem inv_up_state (c : Cfg) (ar aq : Nat) (s' : S) (q : Phase) (b : Base c ar
 theorem headers_finish (c : Cfg) (ar aq : Nat) (s : S) (eos : Bool) (r : Resp) (b : Base c ar aq s)
     (hrun : s.running = true) (hcl : s.cleaned = false) (h3 : K3 s) (h6 : K6 s) (hpd : s.procDone = false)
     (hsr : s.setupRetry = false) (hdir : s.direct = false) (h8 : s.pass ≤ 1) (hur : s.upReset = false)
-    (hlc : liveCount s.streams = 0 ∨ (s.urr = true ∧ respHasMore s.resp = true))
+    (hlc : liveCount s.streams = 0 ∨ (s.urr = true ∧ respHasMore s.resp = true ∧ s.rs.isSome = true))
     (htm : (s.perTry = false ∧ s.global = false) ∨ s.urr = true)
     (hph : s.phase = .UpRecvHeader) (hresp : s.resp = some r) (heos : eos = (!r.hasData && !r.hasTrailers))
     (hrst : s.respStarted = false)
@@ -115,7 +117,7 @@ theorem headers_finish (c : Cfg) (ar aq : Nat) (s : S) (eos : Bool) (r : Resp) (
       simp only [if_true, recvFinished_comm, recvFinished_statusVar]
     rw [e]
     have hlc0 : liveCount s.streams = 0 := by
-      rcases hlc with h0 | ⟨_, h1⟩
+      rcases hlc with h0 | ⟨_, h1, _⟩
       · exact h0
       · rw [hresp] at h1
         simp only [respHasMore] at h1
@@ -186,14 +188,6 @@ theorem inv_work_urh (c : Cfg) (ar aq : Nat) (s : S) (h : Inv c ar aq s) (hrun :
       | none => { s with phase := s.phase.next }) := by
   have hupp : upPhase s.phase = true := by simp [hp, upPhase]
   obtain ⟨hcl, hpd, hsr, hdir, hur0, hlc, htm⟩ := upCtx h hrun hupp
-  have hur : s.upReset = false := by
-    cases hu : s.upReset with
-    | false => rfl
-    | true =>
-      rcases hur0 hu with hh | hh | hh
-      · rw [hp] at hh; cases hh
-      · rw [hp] at hh; cases hh
-      · have := hh.1; rw [hp] at this; cases this
   obtain ⟨_, hresp, _, _, hrst0, _, _⟩ := h.k15 hcl hupp
   have hrst : s.respStarted = false := by rw [hrst0, hp]; decide
   obtain ⟨r, hr⟩ : ∃ r, s.resp = some r := by
@@ -210,12 +204,17 @@ theorem inv_work_urh (c : Cfg) (ar aq : Nat) (s : S) (h : Inv c ar aq s) (hrun :
     | true => have := (h.k32 hcl ho).1; rw [hupp] at this; cases this
   rw [hr]
   simp only
-  by_cases hdr : s.downReset = true
-  · have e : (processDone s || s.setupRetry) = true := by simp [processDone, hdr]
+  by_cases hdr : s.downReset = true ∨ s.upReset = true
+  · -- the client is gone, or ([proxy10]) the open stream of the streamed response was reset before its head went downstream
+    have e : (processDone s || s.setupRetry) = true := by rcases hdr with hdr | hdr <;> simp [processDone, hdr]
     rw [if_pos e]
-    apply finish_inv c ar aq s h hrun (by intro hh; rw [hp] at hh; cases hh) (by intro hh; rw [hp] at hh; cases hh)
-    intro _ h2; rw [hdr] at h2; cases h2
-  · simp only [Bool.not_eq_true] at hdr
+    apply finish_inv c ar aq s h hrun (by rw [hp]; decide) (by intro hh; rw [hp] at hh; cases hh)
+    intro h1 h2
+    rcases hdr with hdr | hdr
+    · rw [hdr] at h2; cases h2
+    · rw [hdr] at h1; cases h1
+  · simp only [not_or, Bool.not_eq_true] at hdr
+    obtain ⟨hdr, hur⟩ := hdr
     have e : (processDone s || s.setupRetry) = false := by simp [processDone, hpd, hdr, hur, hsr]
     rw [if_neg (by simp [e])]
     generalize heos : (!r.hasData && !r.hasTrailers) = eos
@@ -277,7 +276,14 @@ theorem inv_work_urh (c : Cfg) (ar aq : Nat) (s : S) (h : Inv c ar aq s) (hrun :
       · rcases hs3 with rfl | rfl <;> simp [orFlag, f_dir, hdir]
       · rcases hs3 with rfl | rfl <;> simp [orFlag, f_ps, h8]
       · rcases hs3 with rfl | rfl <;> simp [orFlag, f_ur, hur]
-      · rcases hs3 with rfl | rfl <;> simpa [orFlag, f_st, f_urr, f_resp] using hlc
+      · have e4 : (rsReset c s3).rs.isSome = s.rs.isSome := by
+          rw [hf4.1]; rcases hs3 with rfl | rfl <;> simp [orFlag, hf.2.1]
+        rcases hlc with h0 | ⟨h1, h2, h3⟩
+        · left; rcases hs3 with rfl | rfl <;> simpa [orFlag, f_st] using h0
+        · right
+          refine ⟨?_, ?_, by rw [e4]; exact h3⟩
+          · rcases hs3 with rfl | rfl <;> simpa [orFlag, f_urr] using h1
+          · rcases hs3 with rfl | rfl <;> simpa [orFlag, f_resp] using h2
       · rcases hs3 with rfl | rfl <;> simpa [orFlag] using htm1
       · rcases hs3 with rfl | rfl <;> simp [orFlag, f_ph, hp]
       · rcases hs3 with rfl | rfl <;> simp [orFlag, f_resp, hr]
@@ -391,7 +397,7 @@ theorem inv_work_urh (c : Cfg) (ar aq : Nat) (s : S) (h : Inv c ar aq s) (hrun :
           apply key _ (Or.inl rfl)
           show liveCount s1.streams = 0
           rw [f_st]
-          rcases hlc with h0 | ⟨_, h1⟩
+          rcases hlc with h0 | ⟨_, h1, _⟩
           · exact h0
           · rw [hr] at h1
             simp only [respHasMore] at h1
